@@ -179,6 +179,10 @@ def _loop_replay():
                 exp = jnp.stack(exp) if exp else jnp.zeros((0, 2, 3), jnp.int32)
                 if got.shape != exp.shape or not bool(jnp.all(got == exp)):
                     bad.append(("rollout-aux", n, inc))
+                # repeat with a time-varying auxiliary input: consumed in order (the stepper 2u + a is order sensitive)
+                gotr = ex.repeat(step_aux, n, takes_aux=True, constant_aux=False)(u0, aux)
+                if not bool(jnp.all(gotr == cur)):
+                    bad.append(("repeat-aux", n))
             got = ex.repeat(step, n)(u0)
             cur = u0
             for _ in range(n):
